@@ -29,6 +29,11 @@ theorem pad_default_block_size (d : Bytes) : pad1 d none = pad1 d (some 8) ∧ p
 theorem xor_eq_zipWith (a b : Bytes) (h : a.length = b.length) : xor a b = List.zipWith (· ^^^ ·) a b :=
   Pyemv.xor_eq_zipWith a b h
 
+/-- … on a host of either byte order: read with `sys.byteorder == "big"` the same computation gives the same bytes -/
+theorem xor_bigendian_host (a b : Bytes) (h : a.length = b.length) :
+    xorBigEndian a b = List.zipWith (· ^^^ ·) a b ∧ xorBigEndian a b = xor a b :=
+  ⟨xorBigEndian_eq_zipWith a b h, xor_host_independent a b h⟩
+
 theorem xor_same_length (a b : Bytes) : (xor a b).length = a.length := xor_length a b
 
 theorem xor_self_inverse (a b : Bytes) (h : a.length = b.length) : xor (xor a b) b = a := by
